@@ -211,3 +211,23 @@ Theorem C01_qname_default_ns_refuted :
   /\ has_local_qname o_qn = true.
 Proof. exact qname_default_ns_refuted. Qed.
 Print Assumptions C01_qname_default_ns_refuted.
+
+(* ---- recursive class graphs ------------------------------------------------------------------ *)
+(* wf_model collects the classes reachable from the root (work list, visited set) and checks that
+   the collected set is closed and inside the fragment: a class may refer to itself.  Node(label,
+   kids : list[Node], next : Optional[Node]) exported from the real code, an instance of depth 4: inside
+   the guards, and the events the real LxmlEventHandler delivered for the indented output of the real
+   XmlEventWriter read as the expected tree and are parsed back, as is the canonical stream *)
+Example C01_guards_recursive_inhabited :
+  wf_model u_tree root_tree = true
+  /\ fits conv_c05 u_tree ok_c05 py_isspace 4 root_tree o_tree = true
+  /\ noq o_tree = true.
+Proof. exact guards_tree. Qed.
+
+Example C01_real_events_recursive :
+  (match expected_of conv_c05 (EventGen.generate false conv_c05 u_tree o_tree) with
+   | Some e => reads_b e pevs_tree | None => false end) = true
+  /\ Parser.parse cfg_strict conv_c05 u_tree (Some root_tree) pevs_tree = Parser.Ok o_tree []
+  /\ Parser.parse cfg_strict conv_c05 u_tree (Some root_tree)
+       (pump (expected_of conv_c05 (EventGen.generate false conv_c05 u_tree o_tree))) = Parser.Ok o_tree [].
+Proof. exact real_events_tree. Qed.
